@@ -93,7 +93,7 @@ func skolemsOf(t *Term) []*Term {
 			return
 		}
 		visited[x.ID()] = true
-		if x.Op == "select" && x.Args[1].S.K == KBV && x.Args[1].S.W == 64 && !seenIdx[x.Args[1].ID()] && x.Args[1].Size() < 12 {
+		if x.Op == "select" && x.Args[1].S.K == KBV && x.Args[1].S.W == 64 && !seenIdx[x.Args[1].ID()] && x.Args[1].Size() < 2000 {
 			seenIdx[x.Args[1].ID()] = true
 			out = append(out, x.Args[1])
 		}
@@ -121,6 +121,31 @@ func (s *State) instances(goal *Term) []*Term {
 		return nil
 	}
 	sk := skolemsOf(goal)
+	// array reads that the path condition depends on (e.g. a branch on the last element) are instantiation points too
+	have := map[uint64]bool{}
+	for _, k := range sk {
+		have[k.ID()] = true
+	}
+	visited := map[uint64]bool{}
+	extra := 0
+	var walk func(x *Term)
+	walk = func(x *Term) {
+		if visited[x.ID()] || extra >= 40 {
+			return
+		}
+		visited[x.ID()] = true
+		if x.Op == "select" && x.Args[1].S.K == KBV && x.Args[1].S.W == 64 && !have[x.Args[1].ID()] && x.Args[1].Size() < 12 && !x.Args[1].IsConst() {
+			have[x.Args[1].ID()] = true
+			sk = append(sk, x.Args[1])
+			extra++
+		}
+		for _, a := range x.Args {
+			walk(a)
+		}
+	}
+	for i := len(s.PC) - 1; i >= 0; i-- {
+		walk(s.PC[i])
+	}
 	if len(sk) == 0 {
 		return nil
 	}
@@ -1464,6 +1489,8 @@ func (fx *FnExec) ConvertV(st *State, v Value, from, to types.Type) Value {
 				ln := fx.Cx.Fresh("utf8len", BV(64))
 				st.Assume(Implies(Not(small), And(ULe(BV64(2), ln), ULe(ln, BV64(4)))))
 				st.Assume(Implies(small, Eq(ln, BV64(1))))
+				// the first octet of a multi-octet UTF-8 sequence (also of U+FFFD for invalid values) is a lead byte
+				st.Assume(Implies(Not(small), ULe(BVC(8, 0xC2), Select(un, BV64(0)))))
 				return StrV{C: IteC(small, CVec{E: []*Term{b0}, W: 8}, CSym{un}), Off: BV64(0), Len: ln}
 			}
 		case StrV:
